@@ -164,6 +164,9 @@ func opExecOnly(evs []EvRec) []EvRec {
 // whose deadline has passed). The engine carries it for operators and fetchers; it never decides what is reported.
 var c12CallerCtx int
 
+// c12SharedStack: set by the buffered consumer when appending to one event's stack changed another event's stack
+var c12SharedStack string
+
 func runWithConsumer(e *eval.Expr, kind CallKind, f *RecFetcher, timing string) (Outcome, []EvRec) {
 	ctx := &eval.Ctx{VariableFetcher: f}
 	switch c12CallerCtx {
@@ -194,6 +197,25 @@ func runWithConsumer(e *eval.Expr, kind CallKind, f *RecFetcher, timing string) 
 		var evs []EvRec
 		for ev := range ch {
 			evs = append(evs, snapshotEvent(ev))
+		}
+		// a consumer may append to a stack it received (an ordinary thing to do with a slice): that must not reach the
+		// storage of any other event
+		for i := range evs {
+			if evs[i].Type == eval.LoopEvent {
+				grown := append(evs[i].Raw.Stack, "appended by the consumer")
+				_ = grown
+			}
+		}
+		for i := range evs {
+			if evs[i].Type != eval.LoopEvent {
+				continue
+			}
+			for k := range evs[i].Stack {
+				if k >= len(evs[i].Raw.Stack) || !valEq(evs[i].Stack[k], evs[i].Raw.Stack[k]) {
+					c12SharedStack = fmt.Sprintf("LOOP event at position %d: slot %d was %s, after the consumer appended to the stacks of other events it is %s", evs[i].Loop.CurtIdx, k, valTextAny(evs[i].Stack[k]), valTextAny(evs[i].Raw.Stack[k]))
+					break
+				}
+			}
 		}
 		return o, evs
 	default:
@@ -346,6 +368,10 @@ func c12Run(w *W, idx int) {
 			w.Inc(fmt.Sprintf("caller_context_kind_%d", c12CallerCtx))
 			eo, evs := runWithConsumer(evv.E, kind, fetcherFor(b, nil), timing)
 			c12CallerCtx = 0
+			if c12SharedStack != "" {
+				w.Fail("loop-stack-shares-storage-with-other-events", "%s\n%s", c12SharedStack, describeCase(src, ecfg, b))
+				c12SharedStack = ""
+			}
 			w.Evals++
 			what := []string{"Eval", "TryEval"}[kind]
 			if eo.Panic != nil {
